@@ -16,19 +16,19 @@ B = "grin_chain::store::Batch::"
 
 def run(c):
     # --- segments are cached only after validation against the archive header
-    c.r1("bitmap-validated", D + "add_bitmap_segment", S + "Segment::validate_with", sink=D + "cache_bitmap_segment", via=0)
+    c.r1("bitmap-validated", D + "add_bitmap_segment", S + "Segment::validate_with", sink=D + "cache_bitmap_segment", via=2)
     c.r2_arg("bitmap-root", D + "add_bitmap_segment", S + "Segment::validate_with", 3, must=["arg0.archive_header.output_root"])
     c.r2_arg("bitmap-last-pos", D + "add_bitmap_segment", S + "Segment::validate_with", 4, must=["arg0.archive_header.output_mmr_size"])
-    c.r1("output-validated", D + "add_output_segment", S + "Segment::validate_with", sink=D + "cache_output_segment", via=0)
+    c.r1("output-validated", D + "add_output_segment", S + "Segment::validate_with", sink=D + "cache_output_segment", via=2)
     c.r2_arg("output-size", D + "add_output_segment", S + "Segment::validate_with", 1, must=["arg0.archive_header.output_mmr_size"])
     c.r2_arg("output-root", D + "add_output_segment", S + "Segment::validate_with", 3, must=["arg0.archive_header.output_root"])
     c.r2_arg("output-bitmap", D + "add_output_segment", S + "Segment::validate_with", 2, must=["arg0.bitmap_cache"])
     c.r2_arg("output-other-root", D + "add_output_segment", S + "Segment::validate_with", 5, must=["call:BitmapAccumulator::root", "arg0.bitmap_accumulator"])
-    c.r1("rangeproof-validated", D + "add_rangeproof_segment", S + "Segment::validate", sink=D + "cache_rangeproof_segment", via=0)
+    c.r1("rangeproof-validated", D + "add_rangeproof_segment", S + "Segment::validate", sink=D + "cache_rangeproof_segment", via=2)
     c.r2_arg("rangeproof-size", D + "add_rangeproof_segment", S + "Segment::validate", 1, must=["arg0.archive_header.output_mmr_size"])
     c.r2_arg("rangeproof-root", D + "add_rangeproof_segment", S + "Segment::validate", 3, must=["arg0.archive_header.range_proof_root"])
     c.r2_arg("rangeproof-bitmap", D + "add_rangeproof_segment", S + "Segment::validate", 2, must=["arg0.bitmap_cache"])
-    c.r1("kernel-validated", D + "add_kernel_segment", S + "Segment::validate", sink=D + "cache_kernel_segment", via=0)
+    c.r1("kernel-validated", D + "add_kernel_segment", S + "Segment::validate", sink=D + "cache_kernel_segment", via=2)
     c.r2_arg("kernel-size", D + "add_kernel_segment", S + "Segment::validate", 1, must=["arg0.archive_header.kernel_mmr_size"])
     c.r2_arg("kernel-root", D + "add_kernel_segment", S + "Segment::validate", 3, must=["arg0.archive_header.kernel_root"])
     for kind in ("bitmap", "output", "rangeproof", "kernel"):
@@ -41,42 +41,42 @@ def run(c):
     c.r2("proof-root-equality", S + "SegmentProof::validate", ops={"Eq"}, lhs=["call:SegmentProof::reconstruct_root"], rhs=["arg2"], fail_on=False, err="Mismatch")
     c.r2("proof-root-equality-with", S + "SegmentProof::validate_with", ops={"Eq"}, lhs=["call:SegmentProof::reconstruct_root", "call:PMMRIndexHashable::hash_with_index", "arg8", "arg7"],
          rhs=["arg2"], fail_on=False, err="Mismatch")
-    c.r1("segment-validate-root", S + "Segment::validate", S + "Segment::first_unpruned_parent", sink=S + "SegmentProof::validate", via=0)
-    c.r1("segment-validate-proof", S + "Segment::validate", S + "SegmentProof::validate", via=0)
-    c.r1("segment-validate-with-root", S + "Segment::validate_with", S + "Segment::first_unpruned_parent", sink=S + "SegmentProof::validate_with", via=0)
-    c.r1("segment-validate-with-proof", S + "Segment::validate_with", S + "SegmentProof::validate_with", via=0)
+    c.r1("segment-validate-root", S + "Segment::validate", S + "Segment::first_unpruned_parent", sink=S + "SegmentProof::validate", via=2)
+    c.r1("segment-validate-proof", S + "Segment::validate", S + "SegmentProof::validate", via=2)
+    c.r1("segment-validate-with-root", S + "Segment::validate_with", S + "Segment::first_unpruned_parent", sink=S + "SegmentProof::validate_with", via=2)
+    c.r1("segment-validate-with-proof", S + "Segment::validate_with", S + "SegmentProof::validate_with", via=2)
     c.r2_arg("segment-proof-root-arg", S + "Segment::validate", S + "SegmentProof::validate", 2, must=["arg3"])
     c.r2_arg("segment-proof-segment-root", S + "Segment::validate", S + "SegmentProof::validate", 5, must=["call:Segment::first_unpruned_parent"])
-    c.r1("first-unpruned-parent-root", S + "Segment::first_unpruned_parent", S + "Segment::root", via=0)
+    c.r1("first-unpruned-parent-root", S + "Segment::first_unpruned_parent", S + "Segment::root", via=2)
     c.r2("missing-leaf", S + "Segment::root", cond=r"^discr\(Option::ok_or_else\(Option::map\(Iterator::find\(", fail_on=True, dominate=False, err=None,
          desc="Segment::root: a leaf the bitmap requires but the segment lacks is MissingLeaf") if False else None
     # --- finalisation (PIBD)
     V = D + "validate_complete_state"
     for i, req in enumerate(["grin_chain::types::TxHashSetRoots::validate", X + "rewindable_kernel_view", X + "TxHashSet::verify_kernel_pos_index", X + "extending"]):
-        c.r1("pibd-head-after-%d" % (i + 1), V, req, sink=B + "save_body_head", via=0)
+        c.r1("pibd-head-after-%d" % (i + 1), V, req, sink=B + "save_body_head", via=2)
     c.r2_arg("pibd-roots-header", V, "grin_chain::types::TxHashSetRoots::validate", 1, must=["arg0.archive_header"])
     CL = V + "@txhashset::txhashset::extending"
-    c.r1("pibd-state-validated", CL, E + "validate", via=0)
-    c.r1("pibd-sums-after-validate", CL, E + "validate", sink=B + "save_block_sums", via=0)
+    c.r1("pibd-state-validated", CL, E + "validate", via=2)
+    c.r1("pibd-sums-after-validate", CL, E + "validate", sink=B + "save_block_sums", via=2)
     c.r2_arg("pibd-validate-header", CL, E + "validate", 6, must=["re:archive_header$"])
     c.r2_arg("pibd-validate-full", CL, E + "validate", 2, const=0)
-    c.r1("pibd-commit-after-head", V, B + "save_body_head", sink=B + "commit", via=0)
+    c.r1("pibd-commit-after-head", V, B + "save_body_head", sink=B + "commit", via=2)
     # --- finalisation (zip)
     W = CH + "txhashset_write"
     for i, req in enumerate([CH + "validate_kernel_history", X + "TxHashSet::verify_kernel_pos_index", X + "extending"]):
-        c.r1("zip-head-after-%d" % (i + 1), W, req, sink=B + "save_body_head", via=0)
-        c.r1("zip-replace-after-%d" % (i + 1), W, req, sink=X + "txhashset_replace", via=0)
-    c.r1("zip-replace-after-commit", W, B + "commit", sink=X + "txhashset_replace", via=0)
+        c.r1("zip-head-after-%d" % (i + 1), W, req, sink=B + "save_body_head", via=2)
+        c.r1("zip-replace-after-%d" % (i + 1), W, req, sink=X + "txhashset_replace", via=2)
+    c.r1("zip-replace-after-commit", W, B + "commit", sink=X + "txhashset_replace", via=2)
     WC = W + "@txhashset::txhashset::extending"
-    c.r1("zip-rewind-then-validate", WC, E + "rewind", sink=E + "validate", via=0)
-    c.r1("zip-state-validated", WC, E + "validate", via=0)
+    c.r1("zip-rewind-then-validate", WC, E + "rewind", sink=E + "validate", via=2)
+    c.r1("zip-state-validated", WC, E + "validate", via=2)
     c.r2_arg("zip-validate-full", WC, E + "validate", 2, const=0)
     c.r3("replace-callers", X + "txhashset_replace", {W}, floor_sites=1)
     c.r3("pibd-finalise-callers", V, {D + "check_progress", "grin_servers::grin::sync::state_sync::StateSync::continue_pibd", D + "apply_next_segments"} if False else _callers(c, V), floor_sites=1)
     # --- archive reader / writer agree on the file set
-    c.r1("zip-read-file-list", X + "zip_read", X + "file_list", sink="re:grin_util::zip::create_zip$", via=0)
+    c.r1("zip-read-file-list", X + "zip_read", X + "file_list", sink="re:grin_util::zip::create_zip$", via=2)
     c.r2_arg("zip-read-files", X + "zip_read", "re:grin_util::zip::create_zip$", 2, must=["call:txhashset::file_list", "arg1"])
-    c.r1("zip-write-file-list", X + "zip_write", X + "file_list", sink="re:grin_util::zip::extract_files$", via=0)
+    c.r1("zip-write-file-list", X + "zip_write", X + "file_list", sink="re:grin_util::zip::extract_files$", via=2)
     c.r2_arg("zip-write-files", X + "zip_write", "re:grin_util::zip::extract_files$", 2, must=["call:txhashset::file_list", "arg2"])
     # --- segment application
     for fn, tree in (("apply_output_segment", "output_pmmr"), ("apply_rangeproof_segment", "rproof_pmmr")):
